@@ -194,6 +194,9 @@ mod wasm_api;
 // a separate crate in future.
 pub mod ctc;
 
+#[cfg(rten_verif)]
+pub mod verif;
+
 pub mod ops;
 
 pub use buffer_pool::{BufferPool, ExtractBuffer, PoolRef};
